@@ -87,6 +87,7 @@ Definition k_barrier := lib "barriers/*barriers.barrierErr".
 Definition k_barrierPrev := lib "barriers/*barriers.barrierError".
 Definition k_unimpl := lib "issuelink/*issuelink.unimplementedError".
 Definition k_errno := lit "syscall/syscall.Errno".
+Definition k_opaqueErrno := lib "errbase/*errbase.OpaqueErrno".
 Definition k_grpcStatus := lit "google.golang.org/grpc/internal/status/*status.Error".
 Definition k_gogoStatus := lit "github.com/gogo/status/*status.statusError".
 Definition k_join := lib "join/*join.joinError".
@@ -110,7 +111,7 @@ Definition k_linkError := lit "os/*os.LinkError".
 Definition k_syscallError := lit "os/*os.SyscallError".
 
 Definition leaf_decoder_keys : list str :=
-  [k_errorString; k_deadline; k_leafError; k_barrier; k_barrierPrev; k_unimpl; k_errno;
+  [k_errorString; k_deadline; k_leafError; k_barrier; k_barrierPrev; k_unimpl; k_errno; k_opaqueErrno;
    k_grpcStatus; k_gogoStatus].
 Definition multi_decoder_keys : list str := [k_join].
 Definition wrap_decoder_keys : list str :=
@@ -166,7 +167,7 @@ Fixpoint decode (x : enc) (n : positive) {struct x} : err * positive :=
         | _ => opaque n
         end
       else if str_eqb fam k_unimpl then leaf (LUnimpl msg (nth_str 0 rep) (nth_str 1 rep)) n
-      else if str_eqb fam k_errno then
+      else if str_eqb fam k_errno || str_eqb fam k_opaqueErrno then
         match pl with
         | Some (PlErrno pe) =>
           if str_eqb (en_arch pe) this_arch then leaf (LErrno (en_errno pe)) n
